@@ -269,6 +269,12 @@ pub static OPS: &[Op] = &[
         let other_in_self = a[2].total() + scale_zero(a[3].ts()).unwrap() - scale_zero(a[1].ts()).unwrap();
         (show_d(e - f), show_total(clamp(a[0].total() - other_in_self)))
     }},
+    Op { name: "epoch_add_f64", sig: &[Ty::Dur, Ty::Ts, Ty::I32], pre: |a| a[0].total().abs() < 32_000 * NPC && a[2].int().abs() <= 9_007_199, f: |a| {
+        // float seconds that are an exact integer (ns count below 2^53)
+        let e = Epoch::from_duration(a[0].dur(), a[1].ts());
+        let r = e + (a[2].int() as f64);
+        (format!("{} {:?}", show_d(r.duration), r.time_scale), format!("{} {:?}", show_total(a[0].total() + a[2].int() * 1_000_000_000), a[1].ts()))
+    }},
     // ---------------------------------------------------------------- C12 epoch comparisons
     Op { name: "epoch_cmp", sig: &[Ty::Dur, Ty::UTs, Ty::Dur, Ty::UTs], pre: |a| conv_ok(a[2].total(), a[3].ts(), a[1].ts()) && conv_ok(a[0].total(), a[1].ts(), a[3].ts()), f: |a| {
         let e = Epoch::from_duration(a[0].dur(), a[1].ts());
